@@ -7,15 +7,18 @@ from engine import tlc
 WORKER = os.path.join(common.VERIF, "harness", "zstream_worker.py")
 
 
-def gen(c, S, L, quick):
-    near = sorted({0, 1, S - 1, S, S + 1, 8191, 8192, 8193} if quick else {0, 1, 2, S - 1, S, S + 1, 8191, 8192, 8193, 16385, 2 * S})
+def gen(c, S, L, quick, simulate=None):
+    near = sorted({0, 1, S - 1, S, S + 1, 8191, 8192, 8193} if not simulate else {0, 1, 2, S - 1, S, S + 1, 8191, 8192, 8193, 16385, 2 * S})
     Ns = sorted(x for x in near if x >= 0)
     neg = sorted({1, S, 8192} - {0})
     NL = sorted({x for x in (0, 5, 8191, 8192, S - 1) if 0 <= x < S})
-    path = os.path.join(common.VERIF, "out", "cfg", "ZS_%d.cfg" % S)
+    path = os.path.join(common.VERIF, "out", "cfg", "ZS_%d_%d.cfg" % (S, L))
     tlc.write_cfg(path, constants=dict(S=S, Ns=set(Ns), PosOffs=set(Ns), NegOffs=set(neg), NL=set(NL), L=L), spec="Spec", invariants=["PosInRange", "Wellformed"], constraint="Emit")
-    r = tlc.run("ZlibStream", path, workers=1, timeout=1700, heap="6g")
-    c.add_tlc("ZlibStream[S=%d,L=%d]" % (S, L), r)
+    if simulate:
+        r = tlc.run("ZlibStream", path, workers=1, timeout=1700, heap="6g", simulate="num=%d" % simulate, depth=L + 1, seed=c.seed + S)
+    else:
+        r = tlc.run("ZlibStream", path, workers=1, timeout=1700, heap="6g")
+    c.add_tlc("ZlibStream[S=%d,L=%d%s]" % (S, L, ",simulate" if simulate else ""), r)
     if not r.ok: raise tlc.TLCError("ZlibStream violates %s" % (r.violated,))
     return tlc.printed_json(r), NL
 
@@ -60,20 +63,24 @@ def write_side(c):
 def body(c):
     base = common.scratch("c13")
     jobs = []
-    L = 3 if c.quick else 4
+    L = 3        # exhaustive; the thorough tier adds sampled behaviours of length 6 (TLC -simulate) and a larger operand set
     sizes = [0, 1, 100, 8192, 20000] if c.quick else [0, 1, 100, 8191, 8192, 8193, 20000, 70000]
     k = 0
     rng = random.Random(c.seed)
     for S in sizes:
-        hists, NL = gen(c, S, L if S in (0, 1, 100, 8192, 20000) else 3, c.quick)
+        hists, NL = gen(c, S, L, c.quick)
         c.extra.setdefault("sequences_per_size", {})[str(S)] = len(hists)
-        cap = 6000 if c.quick else 60000
+        cap = 6000 if c.quick else (20000 if S < 20000 else 8000)
         if len(hists) > cap: hists = rng.sample(hists, cap)
-        nsplit = 4
+        if not c.quick:
+            longer, _ = gen(c, S, 6, c.quick, simulate=(10000 if S < 20000 else 4000))
+            c.extra.setdefault("sampled_length6_per_size", {})[str(S)] = len(longer)
+            hists = hists + longer
+        nsplit = 4 if c.quick else 7
         for kind in ("rand", "zeros"):
             for part in range(nsplit):
                 jobs.append((base, k, {"S": S, "NL": NL, "kind": kind, "hists": hists[part::nsplit], "classes": ["zlib", "gzip"],
-                                       "levels": [1, 9] if c.quick else [1, 3, 6, 9]})); k += 1
+                                       "levels": [1, 9] if c.quick else [1, 6, 9]})); k += 1
         for h in hists[:1]: c.sample({"S": S, "sequence": h})
     with ThreadPoolExecutor(max_workers=14) as ex:
         results = list(ex.map(run_job, jobs))
